@@ -314,7 +314,8 @@ pub fn final_quiescence(w: &Arc<World>, handles: &[Option<ObjH>]) {
             let live_pool = snap.iter().filter(|t| t.name == POOL_THREAD_NAME && t.state != rt::TaskState::Finished).count();
             let dormant = snap.iter().filter(|t| t.name == POOL_THREAD_NAME && matches!(t.state, rt::TaskState::Blocked(rt::BlockKind::Recv, _))).count();
             let max = w.with(|i| i.cur_max);
-            if max >= 1 && dormant == 0 && live_pool >= max {
+            if (max >= 1 && dormant == 0 && live_pool >= max) || w.with(|i| i.pool_zero) {
+                // (a pool whose maximum is, or has been lowered to, zero cannot finish asynchronous work that waits for other asynchronous work)
                 // every pool thread is stuck inside a job that waits for work that itself needs a pool thread:
                 // a resource deadlock of the generated program, which no property promises to avoid
                 w.note("SATURATED", "pool-exhausted-by-blocked-jobs", None, None, format!("callers stuck: {}", stages.join(", ")));
@@ -435,7 +436,8 @@ pub fn deadlock(w: &Arc<World>, res: &rt::RunResult) {
             let max = w.with(|i| i.cur_max);
             if !pending {
                 w.note("C05", "drop-hang", obj, None, format!("dropping the last owner of o{:?} never returned although every operation scheduled on it has finished; tasks: {}", obj, blocked.join(", ")));
-            } else if max >= 1 && dormant == 0 && live_pool >= max {
+            } else if (max >= 1 && dormant == 0 && live_pool >= max) || max == 0 {
+                // (with a maximum of zero, asynchronous work that depends on other queued asynchronous work cannot finish)
                 w.note("SATURATED", "pool-exhausted-by-blocked-jobs", obj, None, format!("root blocked dropping o{:?}; tasks: {}", obj, blocked.join(", ")));
             } else {
                 w.note("HARNESS", "unexplained-deadlock", obj, None, format!("root blocked dropping o{:?} behind unfinished work; tasks: {}", obj, blocked.join(", ")));
